@@ -305,6 +305,23 @@ def run_twist(ctx, p):
     b = B()
     sm = S()
     api = p['api']
+    if 'Ss' in p:
+        # an object holding several twists of mixed kinds (rotational, irrotational, pure rotation): each is normalised on its own
+        Ss = [np.asarray(s_, dtype=np.float64) for s_ in p['Ss']]
+        C = sm.Twist3 if api.startswith('Twist3') else sm.Twist2
+        try:
+            out = C(Ss).unit
+            again = out.unit
+        except Exception as e:
+            ctx.bad('unittwist', dict(api=api, kind='raised', exc=type(e).__name__), '%s of %d values raised %r' % (api, len(Ss), e))
+            return
+        if type(out) is not C or len(out) != len(Ss) or len(again) != len(Ss):
+            ctx.bad('unittwist', dict(api=api, kind='wrong_type_or_length'), '%s of %d values returned %s of length %d' % (api, len(Ss), type(out).__name__, len(out)))
+            return
+        for s_, o_, a_ in zip(Ss, out.data, again.data):
+            judge_unittwist(ctx, api, s_, o_, a_)
+        ctx.cell('unittwist_multi', api, len(Ss), ''.join(sorted(set('p' if np.linalg.norm(s_[-(3 if C is sm.Twist3 else 1):]) == 0 else 'r' for s_ in Ss))))
+        return
     Sv = np.asarray(p['S'], dtype=np.float64)
     try:
         if api == 'base.unittwist':
@@ -455,6 +472,7 @@ def run(ctx):
         drive(RUNNERS, ctx, 'unit', p)
         if ctx.ncases % 1999 == 1:
             ctx.sample(dict(case='unit', **{k: v for k, v in p.items()}))
+    pending = {}
     for _ in range(ctx.scale(3000, 50000)):
         api = ['base.unittwist', 'base.unittwist_norm', 'base.unittwist2', 'base.unittwist2_norm', 'Twist3.unit', 'Twist2.unit'][rng.integers(6)]
         dim = 2 if '2' in api.split('.')[-1] or api == 'Twist2.unit' else 3
@@ -467,6 +485,10 @@ def run(ctx):
         if rng.random() < 0.1 and wmag > 1e-6:
             v = np.zeros(dim)
         drive(RUNNERS, ctx, 'twist', dict(api=api, S=np.r_[v, w]))
+        if api in ('Twist3.unit', 'Twist2.unit') and wmag not in (5 * EPS, 20 * EPS):
+            pending.setdefault(api, []).append(np.r_[v, w])
+            if len(pending[api]) >= 2 + (ctx.ncases % 3):
+                drive(RUNNERS, ctx, 'twist', dict(api=api + '.multi', Ss=pending.pop(api)))
     for _ in range(ctx.scale(3000, 50000)):
         two = rng.random() < 0.5
         if rng.random() < 0.7:
